@@ -357,6 +357,11 @@ class Schema:
 
     def declarers(self, sup, attr):
         """entities whose attribute `attr` a redeclaration SELF\\sup.attr can mean: sup or its supertypes that declare it"""
+        own = next((a for a in self.Ent(sup)["attrs"] if a["name"].lower() == attr.lower()), None)
+        if own is not None and own["redecl"] and own["redecl"] != sup:
+            return self.declarers(own["redecl"], attr)        # sup only redeclares it: what that redeclaration means
+        if own is not None and not own["redecl"]:
+            return [sup]
         return [m for m in self.inherit_order(sup)
                 if any(a["name"].lower() == attr.lower() and not a["redecl"] for a in self.Ent(m)["attrs"])]
 
